@@ -454,9 +454,9 @@ func c22Run(in *bufio.Scanner, w *bufio.Writer) {
 			}
 			fmt.Fprintf(w, "shape=%s body=%s es=%s et=%s ds=%s dt=%s\n", sh, strings.Join(hx, ","),
 				c22EncProbe(t, false), c22EncProbe(t, true), c22DecProbe(t, false), c22DecProbe(t, true))
-		case (f[0] == "rt" && len(f) == 4) || (f[0] == "val" && len(f) == 5):
+		case (f[0] == "rt" && len(f) == 4) || (f[0] == "val" && len(f) == 5) || (f[0] == "upd" && len(f) == 6):
 			t, ok := tagOf(f[1])
-			if f[0] == "val" {
+			if f[0] != "rt" {
 				t, ok = "", true
 			}
 			if !ok {
@@ -482,7 +482,9 @@ func c22Run(in *bufio.Scanner, w *bufio.Writer) {
 				}
 			}
 			if f[0] == "val" {
-				fmt.Fprintln(w, c22Val(sdk, idx, f[1], f[2], f[3], f[4]))
+				fmt.Fprintln(w, c22Val(sdk, idx, f[1], f[2], f[3], f[4], ""))
+			} else if f[0] == "upd" {
+				fmt.Fprintln(w, c22Val(sdk, idx, f[1], f[2], f[3], f[4], f[5]))
 			} else {
 				fmt.Fprintln(w, c22Rt(sdk, idx, t, f[2], f[3]))
 			}
